@@ -106,6 +106,17 @@ PLANTS = [
     ("struct_ctor_keyword_swapped", "p = PK(b=1, a=2)\nresult('x', p.a * 10 + p.b)"),
     ("method_call_keyword", "p = PK(1, 2)\nresult('x', p.add(k=5))"),
     ("nested_call_keyword_checkpos", "def inner(a: int, b: int) -> int:\n    return a * 10 + b\nx: int = inner(1, b=2)\nresult('x', x)"),
+    # long comparison chains: every link counts
+    ("chain3_false_last", "result('x', 1 < 2 < 3 < 0)"),
+    ("chain3_calls", "result('x', 0 < helper(0, 1) < helper(0, 2) < helper(0, 1))"),
+    ("chain4_mixed", "x = 5\nresult('x', 1 <= x != 7 > 2 >= 9)"),
+    ("chain3_undefined_last", "result('x', 1 < 2 < 3 < zz_undefined)"),
+    ("chain3_in_if", "x = 0\nif 1 < 2 < 3 < 0:\n    x = 1\nresult('x', x)"),
+    # expression statements that are a bare name: unbound / maybe-unbound / consumed names must not pass
+    ("bare_name_unbound", "zz_nothing\nresult('x', 1)"),
+    ("bare_name_maybe_unbound", "c = helper(0, 0) > 5\nif c:\n    y = 1\ny\nresult('x', 1)"),
+    ("bare_name_bound_later", "y\ny = 2\nresult('x', y)"),
+    ("bare_name_bound", "y = 3\ny\nresult('x', y)"),
     ("nested_decorator", "@deco\ndef inner(a: int) -> int:\n    return a + 1\nresult('x', inner(1))"),
     ("nested_default", "def inner(a: int = 5) -> int:\n    return a + 1\nresult('x', inner())"),
     ("nested_default_given", "def inner(a: int = 5) -> int:\n    return a + 1\nresult('x', inner(2))"),
